@@ -31,14 +31,14 @@ type point struct {
 
 // Exec is one execution under a given choice prefix.
 type Exec struct {
-	prefix  []int
-	points  []point
-	threads []*thread
-	cur     *thread
-	atomic  int
-	allDone chan struct{}
-	Diverged string // non-empty if the prefix could not be replayed (nondeterminism in the code under test)
-	Deadlock bool
+	prefix       []int
+	points       []point
+	threads      []*thread
+	cur          *thread
+	atomic       int
+	allDone      chan struct{}
+	Diverged     string // non-empty if the prefix could not be replayed (nondeterminism in the code under test)
+	Deadlock     bool
 	blockedSpins int
 }
 
